@@ -10,6 +10,11 @@ Model: `Model/Sched.lean` — one `Action` per atomic action of `queueResolvedTa
 All theorems are over `Reach`: every dependency relation `deps` (diamonds, fan-in, cycles even), every number of
 workers, activations arriving from anywhere at any time, every interleaving.
 
+`deps` is the *resolved* dependency relation: declared dependencies after require/provide resolution (one declared
+dependency may stand for several targets) together with the dependencies that post-build functions of other targets
+attach while the target waits (`add_dep`); the harness and the driver compute it that way (`EffDeps` / `effDeps`), so the
+acceptor rejects a start of the target before the end of a late-attached dependency.
+
 Scope (what the model leaves out, stated once): local execution only (`runRemotely = false`: on the remote path
 build_step.go:362-376 logs `TargetBuilt` and a failing `EnsureDownloaded` then logs a failure as well — a second
 terminal report); no `--prepare`/`--shell` (`errStop`: `SetState(Stopped)` without `FinishBuild`, build_step.go:67-70,
